@@ -437,6 +437,28 @@ func genFormat(c *ctx, emit func(string)) {
 // comparison and by the L1 theorem).
 func genSegCrash(c *ctx, emit func(string)) {
 	r := rand.New(rand.NewSource(c.seed))
+	// zero-run scenarios: a committed batch, then a batch whose only entry is a long run of
+	// zero bytes (longer than recovery's 64 KiB scrub buffer); the crash loses the 8-byte entry
+	// header but keeps the trailing commit frame: behind the valid chain lie > 64 KiB of zeros
+	// and then a stale frame, which recovery must scrub too
+	for _, z := range []int{65536 + 8*r.Intn(64), 70000 + 8*r.Intn(1000), 131072 + 8*r.Intn(16)} {
+		limit := 262144
+		base := uint64(1 + r.Intn(1000))
+		first := 1 + r.Intn(40)
+		ops := []string{fmt.Sprintf("seg %x %x 1 %x %x", base, r.Uint64()>>uint(r.Intn(64)), limit, limit),
+			fmt.Sprintf("A 1 %x %s", base, payload(r, first)),
+			fmt.Sprintf("A 1 %x %s", base+1, hx(make([]byte, z)))}
+		o1 := 32 + 8 + first + (8-first%8)%8 + 8 // file header, first entry frame, its commit frame
+		mask := new(big.Int)
+		for k := 0; k < limit/8+64; k++ {
+			mask.SetBit(mask, k, 1)
+		}
+		mask.SetBit(mask, o1/8, 0)
+		ops = append(ops, "C "+mask.Text(16), "L", "Q", fmt.Sprintf("G %x", base), fmt.Sprintf("G %x", base+1), "F",
+			fmt.Sprintf("A 1 %x %s", base+1, payload(r, 24)), "L", "Q", "F", "D 0 0")
+		emit(strings.Join(ops, " "))
+		c.stat("zero_run_scenarios")
+	}
 	for i := 0; i < c.n; i++ {
 		hdr, base, limit := segHeader(r)
 		if limit < 512 {
@@ -644,10 +666,7 @@ func genSizes(c *ctx, emit func(string)) {
 	for sz := 65512; sz <= 65544; sz++ {
 		bigs = append(bigs, sz)
 	}
-	nbig := 4
-	if c.tier == "thorough" {
-		nbig = len(bigs)
-	}
+	nbig := len(bigs) // every tier: each size costs ~0.1 s on the model side
 	step := len(bigs) / nbig
 	for k := 0; k < nbig; k++ {
 		sz := bigs[(k*step+int(c.seed))%len(bigs)]
@@ -671,6 +690,9 @@ func genSizes(c *ctx, emit func(string)) {
 		out(sizesLine(r, uint64(1+r.Intn(1000)), L, pre, b))
 		c.stat("random")
 	}
+	// one batch above 8 MiB: still exactly one commit frame (README: one commit per batch)
+	emit(fmt.Sprintf("#big %x", 9<<20))
+	emit(fmt.Sprintf("#bigmid %x", 9<<20))
 	if c.tier == "thorough" {
 		for _, sz := range []int{segMaxEntry - 1, segMaxEntry, segMaxEntry + 1} {
 			emit(fmt.Sprintf("#big %x", sz))
@@ -679,7 +701,7 @@ func genSizes(c *ctx, emit func(string)) {
 	}
 	// WAL level (every tier, ~7 s): payloads whose ENCODING crosses the limit, and a batch
 	// above 64 MiB that must survive a reopen of the unsealed tail
-	for _, k := range []string{"data-8", "data", "ext", "batch"} {
+	for _, k := range []string{"exact", "data-8", "data", "ext", "batch"} {
 		emit("#walbig " + k)
 	}
 }
@@ -718,6 +740,20 @@ func execWalBig(c *ctx, line string) (obs string) {
 	}
 	var logs []*raft.Log
 	switch kind {
+	case "exact":
+		// the largest Data whose ENCODING is exactly MaxEntrySize bytes
+		var probe bytes.Buffer
+		(&wal.BinaryCodec{}).Encode(mk(1, 0, 0), &probe)
+		nd := segMaxEntry - probe.Len()
+		for {
+			var b bytes.Buffer
+			(&wal.BinaryCodec{}).Encode(&raft.Log{Index: 1, Term: 1, Data: make([]byte, nd)}, &b)
+			if b.Len() <= segMaxEntry {
+				break
+			}
+			nd -= b.Len() - segMaxEntry
+		}
+		logs = []*raft.Log{mk(1, nd, 0)}
 	case "data-8":
 		logs = []*raft.Log{mk(1, segMaxEntry-8, 0)}
 	case "data":
@@ -731,6 +767,10 @@ func execWalBig(c *ctx, line string) (obs string) {
 	err = w.StoreLogs(logs)
 	if err != nil {
 		w.Close()
+		if kind == "exact" {
+			c.witness("C15", "max-refused", fmt.Sprintf("entry whose encoding is exactly MaxEntrySize refused: %v", err), line)
+			return "fail"
+		}
 		if kind == "batch" {
 			c.witness("C15", "max-refused", fmt.Sprintf("batch of three 22 MiB entries refused: %v", err), line)
 			return "fail"
@@ -778,6 +818,27 @@ func execSizes(c *ctx, line string) string {
 // a 1 MiB segment: acknowledged => readable (tail reader and sealed reader);
 // size <= MaxEntrySize => accepted; size > MaxEntrySize => ErrTooBig, nothing
 // written.  Too large for a model line; the Go oracle decides alone.
+// countCommitFrames walks the frames of a segment image as README.md lays them out
+// (32-byte file header, frames of 8-byte header + payload padded to 8) and counts the
+// commit frames (type 3) up to the first zero/invalid header.
+func countCommitFrames(data []byte) int {
+	n := 0
+	for off := 32; off+8 <= len(data); {
+		typ := data[off]
+		l := int(uint32(data[off+4]) | uint32(data[off+5])<<8 | uint32(data[off+6])<<16 | uint32(data[off+7])<<24)
+		switch typ {
+		case 1, 2:
+			off += 8 + l + (8-l%8)%8
+		case 3:
+			n++
+			off += 8
+		default:
+			return n
+		}
+	}
+	return n
+}
+
 func execBig(c *ctx, line string) (obs string) {
 	defer func() {
 		if e := recover(); e != nil {
@@ -836,6 +897,10 @@ func execBig(c *ctx, line string) (obs string) {
 		return true
 	}
 	if !check(sw, "tail GetLog") {
+		return "fail"
+	}
+	if n := countCommitFrames(vfs.files[segment.FileName(info)].data); n != 1 {
+		c.witness("C09", "commit-frames-per-batch", fmt.Sprintf("one acknowledged batch of %d bytes left %d commit frames in the file", size, n), line)
 		return "fail"
 	}
 	sealed, is, _ := sw.Sealed()
